@@ -56,6 +56,8 @@ func fnvHex(b []byte) string {
 func brdResult(out []byte, cls string, full bool) string {
 	if cls != "eof" && !full {
 		cls = "rej"
+		// of a rejected input only the first 64 KiB of output are compared (see Drv/Brotli.lean)
+		out = out[:min(len(out), 65536)]
 	}
 	return fmt.Sprintf("%s:%d:%s:%s", hx(out[:min(len(out), 64)]), len(out), fnvHex(out), cls)
 }
@@ -302,6 +304,15 @@ func genBrd(r *Rand, tier string, emit func(string)) {
 		b := synthBrotli(r, i)
 		valid = append(valid, b)
 		e(b)
+	}
+	// complex prefix codes written item by item (synth_brotli_complex.go): repeat runs and the
+	// end of the code space at, before and beyond the end of the alphabet, every HSKIP
+	for _, it := range complexVariants(r) {
+		for _, hs := range []int{0, 2, 3} {
+			b := complexLitStream(it, hs)
+			valid = append(valid, b)
+			e(b)
+		}
 	}
 	nm := 4000
 	if thorough {
